@@ -222,7 +222,7 @@ Section DiffFuel.
     induction fuel as [|f IH]; intros stack seen res Hm; [lia|].
     destruct stack as [|h stack']; cbn [diff_loop]; [discriminate|]. cbn [length] in Hm.
     destruct (oget ea h) as [eA|] eqn:G; [|apply IH; lia].
-    destruct (negb (ohas (l_entries lb) h) && N.eqb (e_logid eA) (l_id lb)); [|apply IH; lia].
+    destruct (negb (ohas (l_entries lb) h) && N.eqb (e_logid eA) (l_id lb) && N.eqb (e_hash eA) h); [|apply IH; lia].
     destruct (fold_left (diff_push lb) (e_next eA) (stack', h :: seen)) as [st' sn'] eqn:F.
     apply IH. pose proof (dunseen_cons_le seen h).
     assert (Hp : forall n, In n (e_next eA) -> In n pool).
